@@ -45,9 +45,16 @@ def cases(tier, seed):
             for L in (3, 20):
                 for isa in (254, 253, 0x00):
                     out.append(dict(kind=kind, seedkey=sk, nbytes=L, w=255, intr='other_sa', intr_sa=isa, reps=1, seed=seed * 977 + len(out)))
+                # the intruder is a second application on the running requester's own ECU
+                out.append(dict(kind=kind, seedkey=sk, nbytes=L, w=255, intr='other_sa', local_intruder=True, reps=1, seed=seed * 977 + len(out)))
                 # truncated intruding DM14 frames (DLC 7, 6, 4)
                 for dlc in (7, 6, 4):
                     out.append(dict(kind=kind, seedkey=sk, nbytes=L, w=255, intr='other_sa', intr_dlc=dlc, reps=1, seed=seed * 977 + len(out)))
+    # history: an earlier, normally completed transaction 1.23 .. 1.252 s before the intruded one (0.5 ms steps), and at a few other distances
+    gaps = [0.01, 0.3, 0.9] + [1.230 + 0.0005 * i for i in range(45)]
+    for gi, g in enumerate(gaps if tier == 'thorough' else gaps[:3] + gaps[3::2]):
+        for kind in (('read', 'write') if tier == 'thorough' or gi % 2 == 0 else ('read',)):
+            out.append(dict(kind=kind, seedkey=False, nbytes=3, w=255, intr='other_sa', pre_gap=round(g, 4), reps=1, seed=seed * 977 + len(out)))
     return out
 
 
@@ -77,21 +84,40 @@ def one_run(case, k, seed):
     op = dict(kind=case['kind'], size=1, count=L, direct=1, pointer=ptr, signed=False, raw=True, via='facade')
     if case['kind'] == 'write':
         op['values'] = [rng.randrange(256) for _ in range(L)]
-    n_before = len(DW.W.bus.frames)
+    if case.get('local_intruder'):
+        # the intruding requester is another application (CA) on the running requester's own ECU: the busy answer addressed to it arrives at
+        # the same stack and must still not reach the running requester
+        DW.W.ca(DW.C, I.addr, identity_number=99)
+    if case.get('pre_gap') is not None:
+        # history: an earlier transaction of the same requester, normally completed, pre_gap seconds before this one (whatever the earlier
+        # one left behind -- a timer, a flag -- must not release or confuse the running one)
+        op0 = dict(kind='read', size=1, count=3, direct=1, pointer=0x92000100, signed=False, raw=True, via='facade', gap=case['pre_gap'])
+
+        def begin(dw):
+            # the measured transaction starts here: the client task has slept pre_gap seconds since the earlier one returned
+            del dw.proceed_calls[:]
+            del dw.notify_calls[:]
+            del dw.responds[:]
+            dw.n_before = len(dw.W.bus.frames)
+        op['pre'] = begin
+        DW.n_before = None
+    else:
+        op0 = None
+        DW.n_before = len(DW.W.bus.frames)
     injected = []
     armed = []
     if k:
         def hook(fr):
             if fr.src == 'I' or (fr.src == 'X'):
                 return
-            if len(DW.W.bus.frames) - n_before == k and not armed:
+            if DW.n_before is not None and len(DW.W.bus.frames) - DW.n_before == k and not armed:
                 armed.append(1)
                 sa = I.addr if case['intr'] == 'other_sa' else DW.cli_addr
                 p2 = 0x92000003 if case['intr'] == 'other_sa' else 0x91000007
                 def shoot():
                     # inside the transaction window only: once the client's closing DM14 is on the bus, a later DM14 arrives after it
                     # (bus order) and is legitimately a new transaction
-                    for f in DW.W.bus.frames[n_before:]:
+                    for f in DW.W.bus.frames[DW.n_before:]:
                         if f.src == 'C' and C.split_id(f.can_id)['pf'] == C.PF_DM14 and len(f.data) == 8 and C.parse_dm14(f.data)['command'] == C.DM14_COMPLETED:
                             return
                     injected.append(DW.sim.now)
@@ -100,7 +126,9 @@ def one_run(case, k, seed):
                     # deferred (also r = 0): the hook runs before frame k's own deliveries are scheduled, bus order must put the intruder after it
                     DW.sim.after(r * 0.0007, shoot)
         DW.W.bus.on_frame_hooks.append(hook)
-    results = DW.run_ops([op], gap=0.01, timeout=1, until_extra=4.5)
+    results = DW.run_ops(([op0] if op0 else []) + [op], gap=0.01, timeout=1, until_extra=4.5)
+    if op0:
+        results = results[1:]          # the earlier transaction is history, not judged here
     return DW, I, op, results, injected
 
 
@@ -109,7 +137,7 @@ def run_case(case):
     tag = dict(layer='dm14', intr=case['intr'], op=case['kind'], seedkey=case['seedkey'])
     obs = dict(intruded_runs=0, busy_answers_checked=0, results_compared=0, silent_runs=0, fault_points=0)
     DW, I, op, results, _ = one_run(case, 0, case['seed'])
-    base_frames = [f for f in DW.W.bus.frames]
+    base_frames = [f for f in DW.W.bus.frames[DW.n_before:]]
     base = results[0] if results else None
     base_ok = base is not None and base['exc'] is None and len(DW.proceed_calls) == 1 and not DW.idle_problems()
     base_proceeds = len(DW.proceed_calls)
